@@ -585,6 +585,94 @@ theorem C04_conditional_write_counterexample : ¬ C04_CondWriteEpisodeFresh := b
   revert this
   decide
 
+/-! ### the seed argument: `reset(seed=…)` as a CALL (the quantifier over seeds made real)
+
+`C04_skeleton_scheduled_episode_fresh` quantifies over the argument of `resetProg`. What a Python call `reset(seed=v)` executes is decided by
+the guard in `reset` and by `set_random_seed` (Model: `resetCall`; regenerated from source: `C04_gen_seed_handling`). -/
+
+/-- every non-negative seed — 0 included — re-seeds: the call `reset(seed=v)` IS the skeleton's `resetProg` with argument `v`,
+whatever `generate_seed_value` says -/
+theorem C04_reset_call_reseeds (v : Int) (gen : Bool) (hv : 0 ≤ v) : resetCall (some v) gen = some (resetProg, v) := by
+  have h1 : ¬ v = -1 := by omega
+  have h2 : ¬ v < -1 := by omega
+  simp [resetCall, resetSeeding, resetSeedGuard, setRandomSeed, h1, h2]
+
+/-- `PrimaiteGymEnv(cfg)` with `game.seed: v`, `v ≥ 0`, is the seeded construction -/
+theorem C04_construct_call_reseeds (v : Int) (gen : Bool) (hv : 0 ≤ v) : constructCall (some v) gen = some (constructProg, v) := by
+  have h1 : ¬ v = -1 := by omega
+  have h2 : ¬ v < -1 := by omega
+  simp [constructCall, setRandomSeed, h1, h2]
+
+/-- the other arguments (quirks of the code kept): no argument and `-1` leave the generators alone; below `-1` raises -/
+theorem C04_reset_call_other :
+    resetCall none false = some (resetProgNoSeed, 0) ∧ resetCall none true = some (resetProgNoSeed, 0)
+    ∧ resetCall (some (-1)) false = some (resetProgNoSeed, 0) ∧ resetCall (some (-1)) true = none
+    ∧ (∀ v : Int, v < -1 → ∀ gen, resetCall (some v) gen = none) := by
+  refine ⟨by decide, by decide, by decide, by decide, ?_⟩
+  intro v hv gen
+  have h1 : ¬ v = -1 := by omega
+  simp [resetCall, resetSeeding, resetSeedGuard, setRandomSeed, h1, hv]
+
+/-- non-vacuity: seed 0 is a seed -/
+example : resetCall (some 0) = some (resetProg, 0) := by decide
+
+/-- **For every natural seed `s` (0, 1, the configured one, 2³²−1, …) the call `reset(seed=s)` followed by any actions returns, on a
+long-lived scheduled instance with an arbitrary past, what it returns on an instance built for that episode's scenario.** -/
+theorem C04_reset_any_seed_episode_fresh (s : Nat) (gen : Bool) (acts : List Val) (i j : Inst) (G G' : Store)
+    (hm : EpisodeMatch i j) (hG : G gImport = G' gImport) :
+    ∃ op, resetCall (some (s : Int)) gen = some op ∧
+      runSolo (op :: acts.map fun a => (stepProg, a)) i G = runSolo (op :: acts.map fun a => (stepProg, a)) j G' :=
+  ⟨(resetProg, (s : Int)), C04_reset_call_reseeds s gen (by omega), C04_skeleton_scheduled_episode_fresh s acts i j G G' hm hG⟩
+
+/-- the same statement for a `reset` whose guard is a truthiness test (`if seed:`) -/
+def C04_TruthySeedEpisodeFresh : Prop :=
+  ∀ (s : Nat) (acts : List Val) (i j : Inst) (G G' : Store), EpisodeMatch i j → G gImport = G' gImport →
+    ∃ op, resetCallTruthy (some (s : Int)) = some op ∧
+      runSolo (op :: acts.map fun a => (stepProg, a)) i G = runSolo (op :: acts.map fun a => (stepProg, a)) j G'
+
+/-- with a truthiness test `reset(seed=0)` is an unseeded reset: the episode shows where earlier episodes left the generator (5 vs 0).
+This is why `C04_gen_seed_handling` pins the guard for EVERY argument. -/
+theorem C04_truthy_seed_counterexample : ¬ C04_TruthySeedEpisodeFresh := by
+  intro h
+  obtain ⟨op, hop, heq⟩ := h 0 [] (initInst 7 0 0 1 0 0) (initInst 7 0 0 1 0 0) (fun g => if g = gRng then 5 else 0) (fun _ => 0)
+    (by simp [EpisodeMatch, initInst, eScheduled, eNmneVar, eConfig, eNmneCfg, eIo, eUsesRng]) (by simp [gImport, gRng])
+  have hop' : op = (resetProgNoSeed, 0) := by
+    have : resetCallTruthy (some ((0 : Nat) : Int)) = some (resetProgNoSeed, 0) := by decide
+    rw [this] at hop
+    exact (Option.some.inj hop).symm
+  subst hop'
+  revert heq
+  decide
+
+/-- what an UNSEEDED reset (`reset()`, Gymnasium: "the generator is not reset") carries over from the past is the generator state and
+nothing else: with equal generator states the episode equals the one of an instance built for that episode's scenario -/
+theorem reset_noseed_episode_match (a : Val) (i j : Inst) (G G' : Store) (hm : EpisodeMatch i j) (hG : G gImport = G' gImport)
+    (hR : G gRng = G' gRng) :
+    (execProg a resetProgNoSeed i G).2.2 = (execProg a resetProgNoSeed j G').2.2
+    ∧ StepRel (execProg a resetProgNoSeed i G).1 (execProg a resetProgNoSeed j G').1 (execProg a resetProgNoSeed i G).2.1 (execProg a resetProgNoSeed j G').2.1 := by
+  obtain ⟨h1, h2, h3, h4, h5, h6⟩ := hm
+  simp only [eScheduled, eNmneVar, eConfig, eNmneCfg, eIo, eUsesRng, eEpisode, gImport, gRng] at h1 h2 h3 h4 h5 h6 hG hR
+  by_cases hs : i.env 5 = 0 <;> by_cases hv : i.env 6 = 0 <;>
+    simp only [hs, hv, ne_eq, not_true_eq_false, not_false_eq_true, if_true, if_false] at h3 h4 <;>
+    refine ⟨?_, ?_, ?_, ?_, ?_, ?_⟩ <;>
+    simp [resetProgNoSeed, buildGame, scenarioExpr, nmneExpr, execProg, execCmd, eval, upd, eScheduled, eNmneVar, eConfig, eNmneCfg, eIo,
+      eUsesRng, eEpisode, gImport, gRng, gNmne, gCapture, gSimOutput, gPcapLoggers, lState, lStep, h1, h2, h3, h4, h5, h6, hG, hR, hs, hv] <;>
+    omega
+
+theorem C04_unseeded_reset_fresh_modulo_rng (acts : List Val) (i j : Inst) (G G' : Store)
+    (hm : EpisodeMatch i j) (hG : G gImport = G' gImport) (hR : G gRng = G' gRng) :
+    ∃ op, resetCall none = some op ∧
+      runSolo (op :: acts.map fun a => (stepProg, a)) i G = runSolo (op :: acts.map fun a => (stepProg, a)) j G' := by
+  refine ⟨(resetProgNoSeed, 0), by decide, ?_⟩
+  have h := reset_noseed_episode_match 0 i j G G' hm hG hR
+  simp only [runSolo]
+  rw [h.1, steps_rel acts _ _ _ _ h.2]
+
+/-- and the generator state does matter for an unseeded reset (by design; not claimed as a violation): same instance, generators 5 / 0 -/
+theorem C04_unseeded_reset_depends_on_rng :
+    runSolo [(resetProgNoSeed, 0)] (initInst 7 0 0 1 0 0) (fun g => if g = gRng then 5 else 0)
+      ≠ runSolo [(resetProgNoSeed, 0)] (initInst 7 0 0 1 0 0) (fun _ => 0) := by decide
+
 /-! ### the committed classification and the regenerated inventory -/
 
 open Primaite.Gen.SharedState
@@ -941,5 +1029,38 @@ theorem C04_gen_reset_shape :
     ∧ constantSchedulerReturns = "copy.deepcopy(self.config)"
     ∧ listSchedulerReturns = ["parsed_cfg"] ∧ listSchedulerParsedBy = "yaml.safe_load"
     ∧ listSchedulerAssigns = ["_exceeded_episode_list"] := by decide +kernel
+
+/-! ### tie: the seed handling of `reset` / `__init__` / `set_random_seed` -/
+
+/-- The regenerated `set_random_seed` and the regenerated guard of `reset` ARE the model's, for EVERY argument (`None`, 0, negative, any
+integer) — a guard written as a truthiness test, a changed sentinel or a dropped branch breaks this. The generators seeded are Python's,
+numpy's (unconditionally, with the argument) and torch's; `reset` seeds in a top-level statement before it rebuilds the game, `__init__`
+seeds unconditionally from `game.seed` of episode 0 before it builds the game. -/
+theorem C04_gen_seed_handling :
+    (∀ (s : Option Int) (gen : Bool), Primaite.Gen.IsolationReset.setRandomSeed s gen = setRandomSeed s gen)
+    ∧ (∀ s : Option Int, Primaite.Gen.IsolationReset.resetSeedGuard s = resetSeedGuard s)
+    ∧ Primaite.Gen.IsolationReset.seedCalls = [("random.seed", "seed", "top"), ("np.random.seed", "seed", "top"),
+        ("th.manual_seed", "seed", "if sys.modules['torch']")]
+    ∧ Primaite.Gen.IsolationReset.resetSeedCall = "set_random_seed(seed, self.generate_seed_value)"
+    ∧ Primaite.Gen.IsolationReset.resetSeedsBeforeNewGame = true
+    ∧ Primaite.Gen.IsolationReset.initSeedStatements =
+        ["self.seed = self.episode_scheduler(0).get('game', {}).get('seed')",
+         "self.generate_seed_value = self.episode_scheduler(0).get('game', {}).get('generate_seed_value')",
+         "self.seed = set_random_seed(self.seed, self.generate_seed_value)"]
+    ∧ Primaite.Gen.IsolationReset.initSeedsBeforeNewGame = true := by
+  refine ⟨?_, ?_, by decide, by decide, by decide, by decide, by decide⟩
+  · intro s gen
+    cases s <;> simp [Primaite.Gen.IsolationReset.setRandomSeed, setRandomSeed]
+  · intro s
+    cases s <;> simp [Primaite.Gen.IsolationReset.resetSeedGuard, resetSeedGuard]
+
+/-- hence the regenerated code re-seeds for every non-negative argument, 0 included (stated on Gen directly) -/
+theorem C04_gen_reset_reseeds_every_seed (v : Int) (gen : Bool) (hv : 0 ≤ v) :
+    (if Primaite.Gen.IsolationReset.resetSeedGuard (some v) then Primaite.Gen.IsolationReset.setRandomSeed (some v) gen else .keeps)
+      = SeedOutcome.seeds v := by
+  rw [C04_gen_seed_handling.1, C04_gen_seed_handling.2.1]
+  have h1 : ¬ v = -1 := by omega
+  have h2 : ¬ v < -1 := by omega
+  simp [resetSeedGuard, setRandomSeed, h1, h2]
 
 end Primaite.Isolation
